@@ -390,9 +390,39 @@ pub fn gen_nested_lists(rng: &mut Rng) -> AstG {
     AstG { terms, rules, flag_term: None }
 }
 
+/// Optional tails: a production that ends in two or three optional parts, each led by its own literal (unambiguous by
+/// construction), with a priority above the default on that production - the right-nulled table then keeps the short
+/// reductions instead of the EMPTY ones, so the intermediate-length arms of the generated reduce_action really run.
+pub fn gen_opt_tails(rng: &mut Rng) -> AstG {
+    let mk = |i: usize| ATerm { name: POOL[i].0.into(), lit: POOL[i].1.map(|s| s.to_string()), regex: POOL[i].2.into(), prefix: POOL[i].3.into() };
+    // Id Num Tag Plus Semi Comma KwA
+    let terms: Vec<ATerm> = vec![mk(0), mk(1), mk(2), mk(7), mk(6), mk(5), mk(8)];
+    let it = |s: Sym, rep: Option<char>, name: Option<&str>| AItem { sym: s, assign: name.map(|n| (n.to_string(), false)), rep: rep.map(|c| (c, None)) };
+    let ntails = rng.range(2, 3);
+    let named = rng.chance(0.4);
+    // rules: 0 Body, 1 Decl, 2.. tails
+    let mut decl = vec![it(Sym::T(0), None, if named { Some("name") } else { None })];
+    let tail_syms = [(3usize, 1usize), (4, 2), (5, 0)]; // (lead literal, content terminal)
+    let mut rules = vec![];
+    for k in 0..ntails {
+        decl.push(it(Sym::N(2 + k), Some('?'), if named && k == 0 { Some("value") } else { None }));
+    }
+    let prio = if rng.chance(0.75) { Some("15".to_string()) } else { None };
+    rules.push(ARule { name: "Body".into(), vec_ann: false, alts: vec![AAlt { items: vec![it(Sym::T(6), None, None), it(Sym::N(1), Some('+'), None)], kind: None }] });
+    rules.push(ARule { name: "Decl".into(), vec_ann: false, alts: vec![AAlt { items: decl, kind: prio }] });
+    for k in 0..ntails {
+        let (lead, content) = tail_syms[k];
+        rules.push(ARule { name: ["Part", "Elem", "Arg"][k].into(), vec_ann: false, alts: vec![AAlt { items: vec![it(Sym::T(lead), None, None), it(Sym::T(content), None, None)], kind: None }] });
+    }
+    AstG { terms, rules, flag_term: None }
+}
+
 pub fn gen_ast(rng: &mut Rng) -> AstG {
     if rng.chance(0.12) {
         return gen_nested_lists(rng);
+    }
+    if rng.chance(0.1) {
+        return gen_opt_tails(rng);
     }
     let n = rng.range(1, 5);
     let k = rng.range(3, POOL.len() - 1);
